@@ -249,7 +249,7 @@ def plan(prop, tier, seed=0):
         if q:
             G += [g_merge(prop, (2, 0, 0, 2), 2)]
     elif prop == 'C02':
-        G += [g_embed(prop, B2, 'embed'), g_embed(prop, (1, 1, 0, 1) if q else B3, 'fold', 300 if q else 2500, seed)]
+        G += [g_embed(prop, B2, 'embed'), g_embed(prop, (1, 1, 0, 1) if q else (1, 1, 1, 2), 'fold', 300 if q else 2500, seed)]
     elif prop == 'C03':
         G += [g_mask(prop, B1, 1), g_mask(prop, B1, 2, hide=not q), g_mask(prop, B1, 2, 'order'), g_mask(prop, B1, 0, 'zero'),
               g_mask(prop, B1, 0, 'maskmask')]
